@@ -255,7 +255,9 @@ class _StepGraph:
         Args:
             path: The path to the step in the hierarchy.
         """
-        self._sequential_steps.append(path)
+        if path not in self._sequential_steps:
+            # A step generated over an existing one keeps its place.
+            self._sequential_steps.append(path)
         self._validate()
 
     def get_execution_layers(self) -> List[List[HierarchyPath]]:
@@ -616,6 +618,11 @@ class Engine:
             step = cast(Step, process)
             self._add_step_path(step, path, get_in(flow, path))
         else:
+            if self.process_paths.get(path, process) is not process:
+                # A process generated over an existing one starts now;
+                # whatever the replaced process had in flight is dropped
+                # with it, as for a deleted process.
+                self.front.pop(path, None)
             self.process_paths[path] = process
 
     def _find_process_paths(
